@@ -17,7 +17,7 @@ RULE = ("modules of set() commands with 0..5 values in every single-argument for
         "an unquoted value ending in an escaped quote; distinct by SHA-1 of the case")
 ASSUMPTIONS = ["for a value containing a line break only the first line of the default is compared (the field is one line)",
                "for UNSET only the type field is constrained"]
-BUDGET = {"quick": {"shards": 4, "examples": 300}, "thorough": {"shards": 16, "examples": 4000}}
+BUDGET = {"quick": {"shards": 8, "examples": 250}, "thorough": {"shards": 16, "examples": 4000}}
 
 VALUES = G.IDENT_T + G.UNQ_T + G.VAR_T + G.BRACKET_T + G.QUOTED_T + [
     '""', '"a\\"b@"', '"\\"@\\""', "x", "1", '"x"', '" lead@"', '"trail@ "', 'a@\\"', '\\"@', '"a@\\\\"', "a\\;b@", '"#[[@"',
